@@ -708,6 +708,12 @@ func (p *Posix) createObjVersion(bucket, key string, size int64, acc auth.Accoun
 	}
 	defer sf.Close()
 
+	// the size of the object that is archived: the caller's size may be
+	// that of an object another upload has replaced since
+	if fi, err := sf.Stat(); err == nil {
+		size = fi.Size()
+	}
+
 	var versionId string
 	data, err := p.meta.RetrieveAttribute(sf, bucket, key, versionIdKey)
 	if err != nil && !errors.Is(err, meta.ErrNoSuchKey) {
